@@ -6,11 +6,11 @@ use std::{
 
 pub fn file_char_stream(path: &Path) -> Result<impl Iterator<Item = char>, std::io::Error> {
     let f = BufReader::new(File::open(path)?);
-    Ok(f.lines().flat_map(|line| {
-        line.unwrap()
-            .chars()
-            .chain(std::iter::once('\n'))
-            .collect::<Vec<_>>()
-            .into_iter()
-    }))
+    // read eagerly, so that an unreadable file (a directory, invalid UTF-8) is an error
+    let mut chars = Vec::new();
+    for line in f.lines() {
+        chars.extend(line?.chars());
+        chars.push('\n');
+    }
+    Ok(chars.into_iter())
 }
